@@ -18,7 +18,15 @@ RULE = ("generated bodies E (C04 grammar with ^/^^ under map/filter/sort_by/pipe
         "define, --set variable, --set macro, select position 1..4, after --split-by} evaluated as paired columns on 1-8 generated inputs; "
         "distinct_nontrivial = distinct (binding form, uses-parent-under-binding, body text) with the value present for at least one input")
 
-FORMS = ("set", "define", "preset-var", "preset-macro", "position", "position-split", "pipe-parent", "macro-late-var")
+FORMS = ("set", "define", "preset-var", "preset-macro", "position", "position-split", "pipe-parent", "macro-late-var", "recursive-macro")
+# terminating self-referential macro bodies (tree and linear recursion) that read the enclosing input or a variable bound on the way down
+RECURSIVE = [
+    ("f", '(? (<= . 1) ^ (+ (| (- . 1) @f) (| (- . 2) @f)))', "(| .i @f)"),
+    ("f", '(? (<= . 1) (push [] . ^) (push (| (- . 1) @f) (| (- . 2) @f)))', "(| .i @f)"),
+    ("g", '(? (<= . 0) :acc (set "acc" (+ :acc .) (| (- . 1) @g)))', '(set "acc" 0 (| .i @g))'),
+    ("g", '(? (<= . 0) :acc (set "acc" (push :acc .) (push (| (- . 1) @g) (| (- . 2) @g))))', '(set "acc" [] (| .i @g))'),
+    ("h", '(? (<= . 1) ^^ (+ (| (- . 1) (| . @h)) (| (- . 2) (| . @h))))', "(| .i (| . @h))"),
+]
 IDENTITY_LIKE = [".", "(abs .)", "(floor .)", "(default . 0)", "(as_number .)", "(? true . 1)", "(round .)", "(sort .)", "(take . 100)",
                  "(as_string .)", "(concat . \"\")", "(| . .)", "(parse (stringify .))", "(reverese .)", "(+ . 0)", "(- .)", "(not .)", "(size .)"]
 
@@ -103,6 +111,13 @@ def gen_unit(rng):
         for _ in range(k):
             stages.append(rng.choice(IDENTITY_LIKE) if rng.random() < 0.7 else eg.show(g.gen(rng.choice(("num", "str", "any", "arr:num")), eg.Scope(allow_sel=False).push("any"))))
         u["a"], u["stages"] = a, stages
+        return u
+    if form == "recursive-macro":
+        name, body, use = rng.choice(RECURSIVE)
+        u["pre"] = ["--set", "@%s=%s" % (name, body)]
+        u["pairs"].append((use, '(define "%s" %s %s)' % (name, body, use), True))
+        if rng.random() < 0.5:
+            u["pairs"].append(("(map (range 6) %s)" % use.replace(".i", "."), '(define "%s" %s (map (range 6) %s))' % (name, body, use.replace(".i", ".")), True))
         return u
     if form == "macro-late-var":
         # a macro whose body reads a variable that is only bound where the macro is used: each use has its own binding
@@ -227,6 +242,9 @@ def run_unit(ctx, unit):
     if unit.get("long"):
         st.count("long_runs")
     args = list(unit["pre"])
+    if unit.get("long"):
+        # references to a macro and a variable nobody defined are legal (they yield nothing); hundreds of them come first
+        args += ["--select", "(default @nosuchmacro :nosuchvariable 0)=u0"]
     pairs = unit["pairs"]
     if unit["form"].startswith("position"):
         # the same expression in each of 2-4 selects
